@@ -35,8 +35,10 @@ def h_engine_summary(o):
     }
     for k, v in s["poison_ops"].items():
         faults["poison_op[%s]" % k] = v
+    names = SITE_NAMES + ["sync_op(auto-instrumented)"] * max(0, len(s["yield_preempts"]) - len(SITE_NAMES))
     for i, n in enumerate(s["yield_preempts"]):
-        faults["yield_preempt[%s]" % SITE_NAMES[i]] = n
+        faults["yield_preempt[%s]" % names[i]] = n
+    faults["blocked_on_real_lock_handoffs(watchdog)"] = s.get("blocked_handoffs", 0)
     probes = {
         "memo_slots_seen_cold_to_filled(of 270)": o["slots_cold_filled"],
         "memo_slots_seen_warm_hit(of 270)": o["slots_warm_hit"],
@@ -48,14 +50,15 @@ def h_engine_summary(o):
         "ops_that_filled_a_cold_slot": s["cold_fill_ops"],
         "ops_that_hit_a_warm_slot": s["warm_hit_ops"],
         "foreign_memo_change(diagnostic, expected 0 with per-thread memo)": s["foreign_memo_change"],
-        "yield_site_hits": {SITE_NAMES[i]: n for i, n in enumerate(s["yield_hits"])},
+        "yield_site_hits": {names[i]: n for i, n in enumerate(s["yield_hits"])},
     }
     gate = [k for k in ("memo_slots_seen_cold_to_filled(of 270)", "memo_slots_seen_warm_hit(of 270)") if probes[k] < 270]
     for k in ("same_op_in_3_threads_of_one_scenario", "reflected_and_unreflected_same_triangle_adjacent", "crs_invocations_reached_10000"):
         if probes[k] == 0:
             gate.append(k)
     return {
-        "engine": "H (native baton-passing history simulator, real OS threads, real thread_local!)",
+        "engine": "H (native baton-passing history simulator, real OS threads, real thread_local!)" + (
+            "; built against an auto-instrumented COPY of the sources: a scheduling point in front of every atomic / lock / once-cell / thread-local operation (%s)" % o.get("instrumentation_note", "") if o["profile"] == "release+sync" else ""),
         "profile": o["profile"],
         "runs": runs,
         "runs_per_hour": int(runs / run_wall * 3600),
